@@ -56,6 +56,29 @@ CHECKS.update({
    note=REL_NOTE + " Process kill is modelled as database-as-of-last-commit + tree-at-that-instant; power loss is out of scope."),
 })
 
+CHECKS.update({
+ "C02": dict(engine="schedules", category="model_checking", design_ref="§8 C02",
+   technique="TLA+ relational check (TLC, RelCheck.tla same_final): full graph rendering and outputs of the same project under different controlled schedules, job counts, resource limits, and resumed vs fresh",
+   text="Each project is built from scratch under 6-12 controlled schedules (fifo/lifo/random release of every scheduling point, delay-rank 'slow step' schedules, jobs 1-4, resource limits) and resumed with nothing changed; TLC compares the full graph rendering (detached nodes, hash presence) and outputs of successful builds and the success/failed/pending class of all builds.",
+   note=REL_NOTE + " Conflict error texts are compared by the graph-layer check, not here."),
+ "C14": dict(engine="watch", category="model_checking", design_ref="§8 C14",
+   technique="TLA+ relational check (TLC, RelCheck.tla watch_eq_restart): real Watcher on real inotify vs restart on a copy of the same pre-state",
+   text="The real director runs in watch mode on real inotify; each watch phase applies a random event sequence (create/modify/delete/restore/recreate of sources, glob matches, tree files, outputs; directory removal and move; plan edits); the rebuilt state is compared by TLC with a restarted director on a snapshot of the same pre-state with the same events applied.",
+   note=REL_NOTE),
+ "C06": dict(engine="buildlayer", category="model_checking", design_ref="§8 C06",
+   technique="TLA+ trace validation (TLC): every file removed between phase end and finalize end must be a recorded, unmodified (or volatile) output and clean-up must be allowed; TLA+ relational check of `stepup clean` invocations (RelCheck.tla clean_tool)",
+   text="On histories that include users overwriting, deleting, replacing by a directory or adopting outputs, TLC checks every automatic removal against what steps recorded as written, and every `stepup clean` invocation (argument sets over paths/--all/--unsafe/--commit, read-only connection) against the database projection and the tree before/after.",
+   note=TRACE_NOTE),
+ "C07": dict(engine="buildlayer", category="model_checking", design_ref="§8 C07",
+   technique="TLA+ trace validation (TLC): after a successful unrestricted build with clean-up, no unmodified former output that no active step uses remains on disk or in the graph; empty output directories are gone",
+   text="After every successful unrestricted phase of generated histories (plan edits that drop, rename, move, re-role steps and outputs, optional steps), TLC checks the NoOrphans monitor on the committed graph and the tree snapshot.",
+   note=TRACE_NOTE),
+ "C11": dict(engine="buildlayer", category="model_checking", design_ref="§8 C11",
+   technique="TLA+ trace validation (TLC): NeededStep (ImpliedNeedDef by definition, with file and directory targets) at every command start, phase end and finalize end",
+   text="With optional-heavy generated graphs and random file/directory target sets (fresh and resumed with other targets), TLC checks that every executed command belongs to a needed step, that a successful phase leaves every needed step built, and that unneeded optional steps are reverted with their outputs removed.",
+   note=TRACE_NOTE),
+})
+
 PENDING = ["C01","C02","C04","C05","C06","C07","C11","C13","C14","C16","C17","C18","C20"]
 
 def main():
@@ -85,6 +108,8 @@ def main():
         "engines": [
             {"name": "buildlayer", "path": "checks/buildlayer.py", "serves_properties": sorted(p for p, c in CHECKS.items() if c["engine"] == "buildlayer"),
              "kind_free_text": "Layer B: real director in process, simulated commands, controller-owned schedules; every recorded trace validated by TLC against spec/TraceCheck.tla"},
+            {"name": "schedules", "path": "checks/schedules.py", "serves_properties": ["C02"], "kind_free_text": "same project under many controlled schedules, compared by TLC"},
+            {"name": "watch", "path": "checks/watch.py", "serves_properties": ["C14"], "kind_free_text": "real Watcher + inotify vs restart on a snapshot, compared by TLC"},
             {"name": "crash", "path": "checks/crash.py", "serves_properties": ["C05"],
              "kind_free_text": "snapshot-based crash injection at every commit / step fs action / cleanup removal of Layer B executions"},
             {"name": "history", "path": "checks/history.py", "serves_properties": sorted(p for p, c in CHECKS.items() if c["engine"] == "history"),
